@@ -16,5 +16,8 @@ OBLIGATIONS = [
          unwind=5, params_quick=[{}], timeout=600),
     # the database side of the same discipline (harness of C03-R1: its transaction and referential-integrity monitors)
     dict(_C03.COMMON, name='T3.write-discipline', params_quick=[p for p in _C03.rt('quick') if p['VF_ND'] == 2][:3], params_thorough=[p for p in _C03.rt('thorough') if p['VF_ND'] == 2 and p['VF_NV'] == 1]),
+    # the same step from ANY state of the database object's own integer members (counters / mode flags): a commit every n-th write is a one-step violation at n-1
+    dict(_C03.COMMON, name='T3b.write-step-any-state', params_quick=[dict(p, VF_HAVOC=1) for p in _C03.rt('quick') if p['VF_ND'] == 2 and 'VF_SAMEDEP' not in p][:2],
+         params_thorough=[dict(p, VF_HAVOC=1) for p in _C03.rt('thorough') if p['VF_ND'] == 2 and p['VF_NV'] == 1 and p['VF_FL'] in (0, 6, 9, 15) and 'VF_SAMEDEP' not in p]),
     dict(ENG, name='T12.attachDB', harness='engine/h_build.cpp', entry='harness_attach', noinline=['BuildEngineImpl8attachDB'], expect_functions=['BuildEngineImpl8attachDB'], unwind=5, params_quick=[{}]),
 ]
